@@ -504,7 +504,8 @@ class Interp:
             elif e.get('v') is not None:
                 val[i] = e['v']
             else:
-                val[i] = Fnref(e)
+                g = self.const_global(e.get('d')) if e.get('dk') == 'Var' else None
+                val[i] = g if g is not None else Fnref(e)
             return
         if k == 'CXXThisExpr':
             val[i] = Ptr(this)
@@ -811,6 +812,19 @@ class Interp:
         if k in ('AttributedStmt', 'NullStmt', 'AutoDtor', 'TempDtor', 'MemberDtor', 'BaseDtor', 'DeleteDtor', 'LifetimeEnds', 'ScopeEnd', 'ScopeBegin'):
             return
         self.broken(fn, e, 'expression kind %s is not modelled' % k)
+
+    def const_global(self, q):
+        """a namespace-scope / static-member constant array with a constant initialiser list (a look-up table): an iterator over its values"""
+        cache = self.fx.__dict__.setdefault('_const_globals', {})
+        if q in cache:
+            return It(cache[q], 0) if cache[q] is not None else None
+        cache[q] = None
+        for v in self.fx.raw.get('vars', []):
+            if v.get('q') == q and v.get('def') and v.get('const') and isinstance(v.get('init'), dict) and '[' in (v.get('t') or ''):
+                items = [x.get('v') for x in v['init'].get('c', [])]
+                if items and all(isinstance(x, int) for x in items):
+                    cache[q] = Vec(items)
+        return It(cache[q], 0) if cache[q] is not None else None
 
     def lookup(self, fn, e):
         fm = e.get('fm')
